@@ -69,6 +69,21 @@ CHECKS.update({
    technique="Lean 4 parser/printer round-trip theorem + decide over the regenerated grammar + correspondence with Lark",
    ref="DESIGN.md section 4, C17"),
 })
+SEM = "Tie: for every program of this run the denoted tree of the REAL output equals the tree of the Lean lowering model (Cfg.asCode); search: Lean executes the C program and the real effect on boundary + pseudo-random states. Programs whose failure falls into a listed carve-out class (the construct is present) are KNOWN-FINDINGs, anything else a violation. "
+CHECKS.update({
+ "C02": dict(
+   text="Proof (current state): typing facts of the C side (common type symmetric, promotion, shift/compare/logical result types, 0/1 results); the operator-by-operator preservation theorem for the repaired configuration (expr_correct_fixed) and the carve-out equality asCode = fixed are being proved on the lowering model and are not claimed until they build. " + SEM + "Programs: exhaustive operator x left type x right type at depth 1 (binary, shifts, six comparisons as condition and as value, && ||, ?:, unary) + generated clean/wild expressions.",
+   note=TB + "C side Model/CSem.lean and IL side Model/ILSem.lean are the specification (DESIGN 3.1/3.2, modelled not verified); lowering model Model/Compile.lean (hand-written mirror with defect switches) tied by tree comparison with the real output on every run; states sampled inside Lean only for the failing-input search.", technique="Lean 4 lowering model + theorems; tie by tree equality with real output; Lean-executed C-vs-IL search", ref="DESIGN.md section 4, C02"),
+ "C03": dict(
+   text="Proof: conversion on bit patterns (narrowing keeps low bits; widening sign-extends iff the SOURCE is signed), the code's cast equals the conforming cast except for a signed source widened into an unsigned target (initACast_asCode_eq_fixed_partial) with the kernel-checked witness of the difference; the value-level preservation theorem for every context is being proved and not claimed until it builds. " + SEM + "Programs: all 8x8 type pairs in initialisation, assignment, chained assignment, explicit cast, register write, memory store, jump target, macro argument, chains of casts, boolean sources.",
+   note=TB + "C side Model/CSem.lean and IL side Model/ILSem.lean are the specification (DESIGN 3.1/3.2, modelled not verified); lowering model Model/Compile.lean (hand-written mirror with defect switches) tied by tree comparison with the real output on every run; states sampled inside Lean only for the failing-input search.", technique="Lean 4 lowering model + theorems; tie by tree equality with real output; Lean-executed C-vs-IL search", ref="DESIGN.md section 4, C03"),
+ "C05": dict(
+   text="Proof (current state): Sequence/EMPTY laws and the compound-assignment expansion on the model; the statement-level preservation theorem for all fuel/trip counts (stmt_correct_fixed) is being proved and not claimed until it builds. " + SEM + "Programs: generated statement sequences (nesting <= 3, if/else, for with ++ and += steps and compound conditions, all assignment operators, chained assignments, register/local/memory writes, jumps).",
+   note=TB + "C side Model/CSem.lean and IL side Model/ILSem.lean are the specification (DESIGN 3.1/3.2, modelled not verified); lowering model Model/Compile.lean (hand-written mirror with defect switches) tied by tree comparison with the real output on every run; states sampled inside Lean only for the failing-input search.", technique="Lean 4 lowering model + theorems; tie by tree equality with real output; Lean-executed C-vs-IL search", ref="DESIGN.md section 4, C05"),
+ "C09": dict(
+   text="Proof (current state): C11 6.4.4.1 literal typing vs the code's suffix-only typing (agreement on small literals, kernel-checked witnesses of the difference), normalisation of folded values; fold soundness for the repaired folding is being proved and not claimed until it builds. " + SEM + "Programs: literal spellings (decimal/hex x suffixes x values around 2^7..2^64) under foldable operators, folded comparisons, constant ?: conditions with register arms, the unfolded (through a local) variants.",
+   note=TB + "C side Model/CSem.lean and IL side Model/ILSem.lean are the specification (DESIGN 3.1/3.2, modelled not verified); lowering model Model/Compile.lean (hand-written mirror with defect switches) tied by tree comparison with the real output on every run; states sampled inside Lean only for the failing-input search.", technique="Lean 4 lowering model + theorems; tie by tree equality with real output; Lean-executed C-vs-IL search", ref="DESIGN.md section 4, C09"),
+})
 NOT_YET = {}
 ALL = [f"C{i:02d}" for i in range(1, 21)]
 def main():
